@@ -45,7 +45,34 @@ func cpuUser() time.Duration {
 }
 
 // input families, parameterised by n (the input grows linearly with n)
+// names c0, c1, … cn joined by sep
+func distinctNames(prefix string, n int, sep string) string {
+	var b strings.Builder
+	for i := 0; i <= n; i++ {
+		if i > 0 {
+			b.WriteString(sep)
+		}
+		b.WriteString(prefix)
+		b.WriteString(strconv.Itoa(i))
+	}
+	return b.String()
+}
+
 var c20Families = map[string]func(n int) string{
+	// wide lists of *distinct* names in every list position of the grammar
+	"insert-column-list":        func(n int) string { return "INSERT INTO t (" + distinctNames("c", n, ", ") + ") VALUES (1" + strings.Repeat(", 1", n) + ")" },
+	"insert-column-list-select": func(n int) string { return "INSERT INTO t (" + distinctNames("c", n, ", ") + ") SELECT * FROM u" },
+	"values-wide-row":           func(n int) string { return "INSERT INTO t VALUES (1" + strings.Repeat(", 1", n) + ")" },
+	"distinct-select-list":      func(n int) string { return "SELECT " + distinctNames("c", n, ", ") + " FROM t" },
+	"distinct-aliases":          func(n int) string { return "SELECT " + distinctNames("a AS c", n, ", ") + " FROM t" },
+	"returning-list":            func(n int) string { return "INSERT INTO t (a) VALUES (1) RETURNING " + distinctNames("c", n, ", ") },
+	"using-list":                func(n int) string { return "SELECT a FROM t JOIN u USING (" + distinctNames("c", n, ", ") + ")" },
+	"cte-column-list":           func(n int) string { return "WITH w (" + distinctNames("c", n, ", ") + ") AS (SELECT 1) SELECT * FROM w" },
+	"create-index-columns":      func(n int) string { return "CREATE INDEX i ON t (" + distinctNames("c", n, ", ") + ")" },
+	"on-conflict-set-list":      func(n int) string { return "INSERT INTO t (a) VALUES (1) ON CONFLICT (a) DO UPDATE SET " + distinctNames("c", n, " = 1, ") + " = 1" },
+	"distinct-from-list":        func(n int) string { return "SELECT a FROM " + distinctNames("t", n, ", ") },
+	"distinct-function-args":    func(n int) string { return "SELECT f(" + distinctNames("c", n, ", ") + ") FROM t" },
+	"partition-by-list":         func(n int) string { return "SELECT SUM(a) OVER (PARTITION BY " + distinctNames("c", n, ", ") + ") FROM t" },
 	"one-long-line":     func(n int) string { return "SELECT a" + strings.Repeat(", a", n) + " FROM t" },
 	"many-lines":        func(n int) string { return "SELECT a\n" + strings.Repeat(", a\n", n) + "FROM t" },
 	"comment-lines":     func(n int) string { return strings.Repeat("-- c\n", n) + "SELECT 1" },
